@@ -4,7 +4,7 @@ use blots_core::{
     environment::Environment,
     error::RuntimeError,
     expressions::{evaluate_pairs, pairs_to_expr_with_comments},
-    formatter::{format_statement, join_statements_with_spacing},
+    formatter::{format_statement_preserving_comments, join_statements_with_spacing},
     functions::get_built_in_function_idents,
     heap::{CONSTANTS, Heap},
     parser::{Rule, Token, get_pairs, get_tokens},
@@ -477,18 +477,30 @@ pub fn format_blots(source: &str, max_columns: Option<usize>) -> Result<JsValue,
                     }
                     Rule::output_declaration => {
                         // Output declaration - wrap in Output expression
+                        let original = first_pair.as_str();
                         let inner_expr = pairs_to_expr_with_comments(first_pair.into_inner())
                             .map_err(|e| JsError::new(&format!("AST conversion error: {}", e)))?;
                         let output_expr = Spanned::dummy(Expr::Output {
                             expr: Box::new(inner_expr),
                         });
-                        format_statement(&output_expr, max_columns, formatted_statements.is_empty())
+                        format_statement_preserving_comments(
+                            &output_expr,
+                            original,
+                            max_columns,
+                            formatted_statements.is_empty(),
+                        )
                     }
                     _ => {
                         // Format as expression
+                        let original = first_pair.as_str();
                         let expr = pairs_to_expr_with_comments(first_pair.into_inner())
                             .map_err(|e| JsError::new(&format!("AST conversion error: {}", e)))?;
-                        format_statement(&expr, max_columns, formatted_statements.is_empty())
+                        format_statement_preserving_comments(
+                            &expr,
+                            original,
+                            max_columns,
+                            formatted_statements.is_empty(),
+                        )
                     }
                 };
 
